@@ -43,6 +43,8 @@ pub struct Logical {
     pub fold: bool,
     /// header carrier: a second X-Amz-Date header with this value after the real one
     pub dup_date: Option<Vec<u8>>,
+    /// write this text as the credential-scope date (and sign over it, with the key of the true date)
+    pub scope_date_override: Option<String>,
 }
 
 /// How the wire request spells the logical one.
@@ -92,6 +94,11 @@ pub struct Signed {
 }
 
 pub fn spell_bytes(rng: &mut Rng, decoded: &[u8], query: bool, respell: bool, literal_plus: bool) -> Vec<u8> {
+    spell_bytes_v(rng, decoded, query, respell, literal_plus, false)
+}
+
+/// `raw_eq`: the bytes are a query *value*, where a literal '=' is an admissible spelling of '='.
+pub fn spell_bytes_v(rng: &mut Rng, decoded: &[u8], query: bool, respell: bool, literal_plus: bool, raw_eq: bool) -> Vec<u8> {
     let mut out = Vec::new();
     for &c in decoded {
         if !respell {
@@ -107,6 +114,8 @@ pub fn spell_bytes(rng: &mut Rng, decoded: &[u8], query: bool, respell: bool, li
             out.push(c);
         } else if query && c == b' ' && r < 5 {
             out.push(b'+');
+        } else if raw_eq && c == b'=' && r < 6 {
+            out.push(b'=');
         } else if literal_plus && c == b'+' && !query {
             out.push(c);
         } else if r % 2 == 0 {
@@ -250,6 +259,7 @@ pub fn random_logical(rng: &mut Rng) -> Logical {
         s3,
         fold,
         dup_date: None,
+        scope_date_override: None,
     }
 }
 
@@ -259,7 +269,7 @@ fn form_body(rng: &mut Rng, pairs: &[(Vec<u8>, Vec<u8>)], sp: &Spelling) -> Vec<
         .map(|(k, v)| {
             let mut c = spell_bytes(rng, k, true, sp.respell, false);
             c.push(b'=');
-            c.extend(spell_bytes(rng, v, true, sp.respell, false));
+            c.extend(spell_bytes_v(rng, v, true, sp.respell, false, true));
             c
         })
         .collect();
@@ -268,7 +278,8 @@ fn form_body(rng: &mut Rng, pairs: &[(Vec<u8>, Vec<u8>)], sp: &Spelling) -> Vec<
 
 /// Sign `l` with the reference signer and spell it on the wire. `now` is the server time to use.
 pub fn sign_and_spell(l: &Logical, rng: &mut Rng, sp: &Spelling, now: (i64, u32)) -> Signed {
-    let (compact, scope_date) = rs::ref_compact(l.time_ns);
+    let (compact, true_date) = rs::ref_compact(l.time_ns);
+    let scope_date = l.scope_date_override.clone().unwrap_or_else(|| true_date.clone());
     let credential = format!("{}/{}/{}/{}/aws4_request", l.access_key, scope_date, l.region, l.service);
     let time_text = render_time(l.time_ns, l.time_style);
 
@@ -350,7 +361,7 @@ pub fn sign_and_spell(l: &Logical, rng: &mut Rng, sp: &Spelling, now: (i64, u32)
     }
     let scope = format!("{}/{}/{}/aws4_request", scope_date, l.region, l.service);
     let sts = rs::string_to_sign(&compact, &scope, &creq);
-    let key = rs::signing_key(l.secret.as_bytes(), &scope_date, &l.region, &l.service);
+    let key = rs::signing_key(l.secret.as_bytes(), &true_date, &l.region, &l.service);
     let signature = rs::sign(&key, &sts);
 
     // --- wire spelling
@@ -386,7 +397,7 @@ pub fn sign_and_spell(l: &Logical, rng: &mut Rng, sp: &Spelling, now: (i64, u32)
         let mut c = spell_bytes(rng, k, true, sp.respell, false);
         if !(v.is_empty() && sp.respell && rng.chance(1, 2)) || c.is_empty() {
             c.push(b'=');
-            c.extend(spell_bytes(rng, v, true, sp.respell, false));
+            c.extend(spell_bytes_v(rng, v, true, sp.respell, false, true));
         }
         comps.push(c);
         if sp.permute && rng.chance(1, 8) {
@@ -468,6 +479,7 @@ pub fn sign_and_spell(l: &Logical, rng: &mut Rng, sp: &Spelling, now: (i64, u32)
         ifreq: vec![],
         prefixes: vec![],
         vec_reqs: false,
+        req_ops: vec![],
         method: l.method.clone(),
         uri,
         headers,
@@ -484,4 +496,43 @@ pub fn sign_and_spell(l: &Logical, rng: &mut Rng, sp: &Spelling, now: (i64, u32)
 pub fn now_for(l: &Logical, skew_ns: i128) -> (i64, u32) {
     let t = l.time_ns + skew_ns;
     (t.div_euclid(1_000_000_000) as i64, t.rem_euclid(1_000_000_000) as u32)
+}
+
+/// The signature a conforming signer would present for the wire request `c` *as it now is* (after
+/// arbitrary edits of URI, headers or body), keeping the signing metadata of `s` (signed-header list,
+/// timestamp, scope, key). Err(kind) when the request cannot be canonicalised.
+pub fn wire_expected_signature(s: &Signed, l: &Logical, c: &Case) -> Result<String, &'static str> {
+    let uri: http::Uri = c.uri.parse().map_err(|_| "not-admitted")?;
+    // the crate's reading of '+' in a path is used here: the recorded finding is reported by C09/C02
+    let path = rs::ref_path(uri.path().as_bytes(), c.s3, true).ok_or("InvalidURIPath")?;
+    let mut pairs = rs::ref_query_pairs(uri.query().unwrap_or("").as_bytes()).ok_or("MalformedQueryString")?;
+    let folds = c.fold && rs::ref_content_type(&c.headers).map(|(ct, _)| ct == b"application/x-www-form-urlencoded").unwrap_or(false);
+    let payload: Vec<u8> = if folds {
+        if !rs::utf8_valid(&c.body) {
+            return Err("InvalidBodyEncoding");
+        }
+        pairs.extend(rs::ref_query_pairs(&c.body).ok_or("MalformedQueryString")?);
+        Vec::new()
+    } else {
+        c.body.clone()
+    };
+    let mut groups: Vec<(String, Vec<Vec<u8>>)> = Vec::new();
+    for n in &s.signed_names {
+        let vals: Vec<Vec<u8>> = c.headers.iter().filter(|(hn, _)| hn.to_ascii_lowercase() == *n).map(|(_, v)| v.clone()).collect();
+        if !vals.is_empty() {
+            groups.push((n.clone(), vals));
+        }
+    }
+    let ci = rs::CanonInput { method: &c.method, path, pairs, headers: groups, payload: &payload };
+    let (creq, _) = rs::canonical_request(&ci);
+    let full = s.signed_names.join(";");
+    let tail_start = creq.iter().rposition(|x| *x == b'\n').unwrap();
+    let head_end = creq[..tail_start].iter().rposition(|x| *x == b'\n').unwrap();
+    let mut fixed = creq[..=head_end].to_vec();
+    fixed.extend_from_slice(full.as_bytes());
+    fixed.extend_from_slice(&creq[tail_start..]);
+    let (compact, _) = rs::ref_compact(l.time_ns);
+    let scope = format!("{}/{}/{}/aws4_request", s.scope_date, l.region, l.service);
+    let sts = rs::string_to_sign(&compact, &scope, &fixed);
+    Ok(rs::sign(&s.key, &sts))
 }
